@@ -83,6 +83,18 @@ EmitLong(op) ==
           B == IF dt = "bool" THEN T("bool", bshape, [k \in 1..Size(bshape) |-> k % 5 < 2]) ELSE T(dt, bshape, [k \in 1..Size(bshape) |-> Fin(((k * 5) % 19) + 1)])
       IN PrintT(<<"CASE", ToJson(CaseRec("types", op, A, B, <<"long", dt>>))>>)
 
+\* tiling law (Outcome.tla): rows along axis 0 are treated independently; the harness repeats the flagged operands beyond a
+\* million elements
+TileVariants == {<<<<3>>, <<3>>, {1, 2}>>, <<<<3>>, <<1>>, {1}>>, <<<<1>>, <<3>>, {2}>>, <<<<3, 2>>, <<2>>, {1}>>, <<<<3, 2>>, <<3, 1>>, {1, 2}>>, <<<<3>>, <<>>, {1}>>,
+                 <<<<5, 1>>, <<1, 4>>, {1}>>}
+EmitTile(op) ==
+   LET dts == IF op \in LogicOps THEN {"bool"} ELSE {"f32", "i64"} IN
+   \A dt \in dts : \A v \in TileVariants :
+      LET A == IF dt = "bool" THEN T("bool", v[1], [k \in 1..Size(v[1]) |-> (k * k) % 3 = 1]) ELSE T(dt, v[1], [k \in 1..Size(v[1]) |-> Fin(((k * 7) % 23) - 11)])
+          B == IF dt = "bool" THEN T("bool", v[2], [k \in 1..Size(v[2]) |-> k % 5 < 2]) ELSE T(dt, v[2], [k \in 1..Size(v[2]) |-> Fin(((k * 5) % 19) + 1)])
+      IN TileLaw(LAMBDA ins : SemBinary(op, ins[1], ins[2]), <<A, B>>, v[3]) =>
+            PrintT(<<"CASE", ToJson(CaseRec("types", op, A, B, <<"tile_law", dt>>) @@ [tile |-> TileField(v[3])])>>)
+
 Init ==
    CASE Mode = "shapes" -> st \in [mode : {"shapes"}, op : Ops, a : ShapeSet, b : ShapeSet, done : {FALSE}]
      [] Mode = "values" -> st \in [mode : {"values"}, op : Ops, dt : NumTypes \cup {"bool"}, done : {FALSE}]
@@ -93,7 +105,7 @@ Emit ==
    /\ CASE st.mode = "shapes" ->
              PrintT(<<"CASE", ToJson(CaseRec("shapes", st.op, IdT(st.op, st.a, 0), IdT(st.op, st.b, 100), ShapeFeat(st.a, st.b)))>>)
         [] st.mode = "values" -> (st.dt \in OpTypes(st.op) => EmitValues(st.op, st.dt))
-        [] st.mode = "types" -> EmitTypes(st.op) /\ EmitLong(st.op)
+        [] st.mode = "types" -> EmitTypes(st.op) /\ EmitLong(st.op) /\ EmitTile(st.op)
    /\ st' = [st EXCEPT !.done = TRUE]
 
 Next == Emit
